@@ -1497,47 +1497,3 @@ package decimal128
 //@ holds (cmpmag(cd, ed, co, eo) == 0 - 1 <==> vd < vo) && (cmpmag(cd, ed, co, eo) == 0 <==> vd == vo) && (cmpmag(cd, ed, co, eo) == 1 <==> vd > vo)
 //@ props C04 C19
 
-// Determinacy of correct rounding (C19): two members of the format that the same mode selects for the
-// same exact value denote the same value, whatever exponents they are written with (one lemma per mode).
-//@ lemma rnd_determinate_0
-//@ forall v real, w real, neg bool, c1 int, e1 int, c2 int, e2 int
-//@ hyp v > 0 && w >= 0 && 0 <= e1 && e1 <= e2 && e2 <= 32000
-//@ hyp RndOK(0, neg, rs(v, e1), c1, e1) && RndOK(0, neg, rs(v, e2), c2, e2) && rs(w, e1) == c1
-//@ holds rs(w, e2) == c2
-//@ props C19
-
-//@ lemma rnd_determinate_1
-//@ forall v real, w real, neg bool, c1 int, e1 int, c2 int, e2 int
-//@ hyp v > 0 && w >= 0 && 0 <= e1 && e1 <= e2 && e2 <= 32000
-//@ hyp RndOK(1, neg, rs(v, e1), c1, e1) && RndOK(1, neg, rs(v, e2), c2, e2) && rs(w, e1) == c1
-//@ holds rs(w, e2) == c2
-//@ props C19
-
-//@ lemma rnd_determinate_2
-//@ forall v real, w real, neg bool, c1 int, e1 int, c2 int, e2 int
-//@ hyp v > 0 && w >= 0 && 0 <= e1 && e1 <= e2 && e2 <= 32000
-//@ hyp RndOK(2, neg, rs(v, e1), c1, e1) && RndOK(2, neg, rs(v, e2), c2, e2) && rs(w, e1) == c1
-//@ holds rs(w, e2) == c2
-//@ props C19
-
-//@ lemma rnd_determinate_3
-//@ forall v real, w real, neg bool, c1 int, e1 int, c2 int, e2 int
-//@ hyp v > 0 && w >= 0 && 0 <= e1 && e1 <= e2 && e2 <= 32000
-//@ hyp RndOK(3, neg, rs(v, e1), c1, e1) && RndOK(3, neg, rs(v, e2), c2, e2) && rs(w, e1) == c1
-//@ holds rs(w, e2) == c2
-//@ props C19
-
-//@ lemma rnd_determinate_4
-//@ forall v real, w real, neg bool, c1 int, e1 int, c2 int, e2 int
-//@ hyp v > 0 && w >= 0 && 0 <= e1 && e1 <= e2 && e2 <= 32000
-//@ hyp RndOK(4, neg, rs(v, e1), c1, e1) && RndOK(4, neg, rs(v, e2), c2, e2) && rs(w, e1) == c1
-//@ holds rs(w, e2) == c2
-//@ props C19
-
-//@ lemma rnd_determinate_5
-//@ forall v real, w real, neg bool, c1 int, e1 int, c2 int, e2 int
-//@ hyp v > 0 && w >= 0 && 0 <= e1 && e1 <= e2 && e2 <= 32000
-//@ hyp RndOK(5, neg, rs(v, e1), c1, e1) && RndOK(5, neg, rs(v, e2), c2, e2) && rs(w, e1) == c1
-//@ holds rs(w, e2) == c2
-//@ props C19
-
